@@ -161,3 +161,55 @@ void h_dec(void)
 	}
 	V_CANARY("dec");
 }
+
+/* OID strings: oidIsValid == grammar d1.d2[.d3...] (d1 <= 2, d2 < 40 if d1 < 2, no leading zeros,
+   every arc and 40 * d1 + d2 fit u32); oidFromDER(oidToDER(s)) == s */
+#include "bee2/core/oid.h"
+static int spec_oid_valid(const char* s, size_t n)
+{
+	size_t i = 0, arcs = 0;
+	unsigned long long d1 = 0;
+	while (1)
+	{
+		unsigned long long v = 0; size_t start = i;
+		while (i < n && s[i] >= '0' && s[i] <= '9')
+		{
+			v = v * 10 + (unsigned long long)(s[i] - '0');
+			if (v > 0xFFFFFFFFull) return 0;
+			++i;
+		}
+		if (i == start) return 0;                          /* empty arc */
+		if (i - start > 1 && s[start] == '0') return 0;   /* leading zero */
+		if (arcs == 0) { if (v > 2) return 0; d1 = v; }
+		if (arcs == 1) { if (d1 < 2 && v >= 40) return 0; if (40 * d1 + v > 0xFFFFFFFFull) return 0; }
+		++arcs;
+		if (i == n) break;
+		if (s[i] != '.') return 0;
+		++i;
+	}
+	return arcs >= 2;
+}
+void h_oid(void)
+{
+	V_IN_ARR(char, raw, SLEN ? SLEN : 1);
+	size_t i;
+	{ size_t k; for (k = 0; k < SLEN; ++k) V_ASSUME(raw[k] != 0); }
+	V_TWEAK(raw, for (i = 0; i < SLEN; ++i) if (v_rand() % 16) raw[i] = "0123456789.."[v_rand() % 12]; if (SLEN > 2 && v_rand() % 2) { raw[0] = (char)('0' + v_rand() % 3); raw[1] = '.'; });
+	{
+		STRING(s, raw);
+		int valid = spec_oid_valid(raw, SLEN);
+		V_ASSERT(oidIsValid(s) == valid, "oidIsValid == OID grammar");
+		{
+			size_t n = oidToDER(0, s);
+			V_ASSERT((n == SIZE_MAX) == !valid, "oidToDER fails exactly for invalid identifiers");
+			V_NATIVE_ONLY(if (valid) {
+				V_ALLOC(octet, der, n); size_t l;
+				V_ASSERT(oidToDER(der, s) == n, "oidToDER(NULL) == oidToDER(buf)");
+				l = oidFromDER(0, der, n);
+				V_ASSERT(l == SLEN, "oidFromDER(NULL): string length");
+				{ V_ALLOC(char, back, l + 1); V_ASSERT(oidFromDER(back, der, n) == l && strEq(back, s), "oidFromDER inverts oidToDER"); }
+				if (n > 2) V_ASSERT(oidFromDER(0, der, n - 1) == SIZE_MAX, "oidFromDER rejects a truncated code"); })
+		}
+	}
+	V_CANARY("oid");
+}
